@@ -796,7 +796,8 @@ static bool_t rngIsValid_internal()
 bool_t rngIsValid()
 {
 	bool_t b;
-	if (!_inited)
+	// инициализация не завершена (атомарное чтение триггера)?
+	if (mtAtomicCmpSwap(&_once, 1, 1) != 1 || !_inited)
 		return FALSE;
 	mtMtxLock(_mtx);
 	b = rngIsValid_internal();
